@@ -78,6 +78,19 @@ def array_obs(ety, ename, n, kind):
         ob = Ob(name, src, [('buf', arr, False), ('scalar', 'usize')], 'i32', readf_post, {'kind': 'index-read-field', 'elem': tname, 'n': n})
         ob.handles_abort = True; obs.append(ob)
     if scalar:
+        # literal in-range indexes (out-of-range literals are rejected at compile time): exactly that element
+        for k in sorted({0, n - 1}):
+            name = 'rdl_%s_%d_%d' % (ename, n, k)
+            src = '%s :: (p: ^%s) -> %s { p[%d] }' % (name, arr.src(), tname, k)
+
+            def rl_post(ctx, xs, k=k):
+                b = ctx.bufs[0]
+                return [('a literal in-range index never aborts', z3.BoolVal(ctx.status == 'ret')), ('no access outside the container', ctx.accesses_inside()),
+                        ('container unchanged', frame(ctx, b, []))] + ([('result is element %d' % k, ctx.ret == elem_value(ctx, b, k * st, ety))] if ctx.status == 'ret' else [])
+            ob = Ob(name, src, [('buf', arr, False)], tname, rl_post, {'kind': 'index-read-literal', 'elem': tname, 'n': n})
+            ob.handles_abort = True; obs.append(ob)
+
+    if scalar:
         def write_post(ctx, xs, compound=False):
             i, x = xs; b = ctx.bufs[0]
             goals = [('no access outside the container', ctx.accesses_inside())]
@@ -150,6 +163,40 @@ def slice_obs(ety, ename, cap):
             goals.append(('element i holds the written value', z3.Implies(i == j, ctx.final_bytes(b, j * st, es) == x)))
             goals.append(('only element i changed', z3.Implies(i == j, frame(ctx, b, [(j * st, es)]))))
         return goals
+    # literal and constant indexes into a slice: the length is only known at run time, so the check must stay
+    for k, spelling in ((0, '0'), (1, '1'), (cap - 1, str(cap - 1)), (cap, str(cap)), (2, '(1 + 1)'), (3, 'K3')):
+        name = 'srl_%s_%d_%s' % (ename, k, 'lit' if spelling.isdigit() else ('expr' if '(' in spelling else 'const'))
+        src = ('%s_in :: (s: []%s) -> %s { s[%s] }\n' % (name, tname, tname, spelling) +
+               '%s :: (p: ^mut %s, n: usize) -> %s { r := %s.{ len = n, ptr = p }; s := (^[]%s).(rawptr.(^r))^; %s_in(s) }' % (name, arr.src(), tname, raw, tname, name))
+
+        def lit_post(ctx, xs, k=k):
+            nlen = xs[0]; b = ctx.bufs[0]
+            goals = [('no access outside the container', ctx.accesses_inside()), ('container and guards unchanged', frame(ctx, b, []))]
+            if ctx.status == 'abort':
+                return goals + [('abort only when the literal index is >= len', z3.UGE(BV(k, 64), nlen))]
+            goals.append(('returns only when the literal index is < len', z3.ULT(BV(k, 64), nlen)))
+            if k < cap:
+                goals.append(('result is element %d' % k, ctx.ret == elem_value(ctx, b, k * st, ety)))
+            return goals
+        ob = Ob(name, src, [('buf', arr, True), ('scalar', 'usize')], tname, lit_post, {'kind': 'slice-read-literal-index', 'elem': tname, 'index': spelling},
+                pre=lambda xs: [z3.ULE(xs[0], cap)])
+        ob.handles_abort = True; obs.append(ob)
+        name = 'swl_%s_%d_%s' % (ename, k, 'lit' if spelling.isdigit() else ('expr' if '(' in spelling else 'const'))
+        src = ('%s_in :: (s: ^mut []%s, x: %s) { s[%s] = x; }\n' % (name, tname, tname, spelling) +
+               '%s :: (p: ^mut %s, n: usize, x: %s) { r := %s.{ len = n, ptr = p }; s := (^[]%s).(rawptr.(^r))^; s2 := s; %s_in(^mut s2, x); }' % (name, arr.src(), tname, raw, tname, name))
+
+        def litw_post(ctx, xs, k=k):
+            nlen, x = xs; b = ctx.bufs[0]
+            goals = [('no access outside the container', ctx.accesses_inside())]
+            if ctx.status == 'abort':
+                return goals + [('abort only when the literal index is >= len', z3.UGE(BV(k, 64), nlen)), ('nothing was written before the abort', frame(ctx, b, []))]
+            goals.append(('returns only when the literal index is < len', z3.ULT(BV(k, 64), nlen)))
+            if k < cap:
+                goals += [('element holds the written value', ctx.final_bytes(b, k * st, es) == x), ('only that element changed', frame(ctx, b, [(k * st, es)]))]
+            return goals
+        ob = Ob(name, src, [('buf', arr, True), ('scalar', 'usize'), ('scalar', tname)], None, litw_post, {'kind': 'slice-write-literal-index', 'elem': tname, 'index': spelling},
+                pre=lambda xs: [z3.ULE(xs[0], cap)])
+        ob.handles_abort = True; obs.append(ob)
     name = 'swr_%s' % ename
     src = mk(name, '(s: ^mut []%s, i: usize, x: %s) { s[i] = x; }' % (tname, tname), 's2 := s; %s_in(^mut s2, i, x);' % name, None)
     ob = Ob(name, src, [('buf', arr, True), ('scalar', 'usize'), ('scalar', 'usize'), ('scalar', tname)], None, write_post,
@@ -283,16 +330,19 @@ def run(chk, tier, seed):
             so, d = slice_obs(ety, en, 4 if tier == 'quick' else 8)
             obs += so; extra_decl.append(d)
     obs += nested_obs() + unwrap_obs()
-    src = clifcheck.PRELUDE + '\n'.join(d.decl() for d in decls) + '\n' + '\n'.join(extra_decl) + '\n' + '\n'.join(o.src for o in obs) + '\n'
+    src = clifcheck.PRELUDE + 'K3 : usize : 3;\n' + '\n'.join(d.decl() for d in decls) + '\n' + '\n'.join(extra_decl) + '\n' + '\n'.join(o.src for o in obs) + '\n'
     refs = 'refs :: () {\n' + '\n'.join('    r%d := %s;' % (i, o.name) for i, o in enumerate(obs)) + '\n}\n'
     mod, out = clifcheck.compile_module('C10', 'index', src + refs + 'main :: () { refs(); }\n')
     if mod is None:
         raise Inconclusive('the C10 template was rejected by the compiler:\n' + out[-1500:])
     chk.opcodes.update(mod.opcodes)
+    import os
+    from lib import elfdata
+    data = elfdata.data_objects(os.path.join(common.workdir('C10'), 'out', 'index.o'))
     prover = Prover(chk)
     bad = 0
     for ob in obs:
-        bad += check_ob(chk, prover, mod, ob, (src, refs), track_loads=True)
+        bad += check_ob(chk, prover, mod, ob, (src, refs), track_loads=True, data=data)
     chk.cov.update({'programs': len(obs), 'disagreements_checked': bad,
                     'explanation': 'programs = index/unwrap templates; each proved for all index values, all container bytes, all lengths/tags'})
     chk.bounds.update({'array_lengths': sizes, 'slice_capacity': 4 if tier == 'quick' else 8, 'elements': [e[1] for e in elems],
